@@ -3,6 +3,8 @@
     c20.print  (fam arg value)  -> text | 'err
     c20.parse  (fam arg doc)    -> value | 'err      json.Unmarshal(doc, &x)
     c20.method (fam arg bytes)  -> value | 'err      x.UnmarshalJSON(bytes)
+    c20.valid  doc              -> bool              json.Valid(doc)
+    c20.unquote doc             -> bytes | 'err      json.Unmarshal(doc, &s), s a string
 
     fam/arg: 'uint w | 'int w | 'big _ | 'bits nbytes | 'grams | 'coins |
     'magic | 'cell | 'bitstring | 'addr | 'tonbits | 'tlint | 'acct |
@@ -151,9 +153,18 @@ Definition run_parse_with (direct : bool) (a : sx) : sx :=
 Definition run_parse : sx -> sx := run_parse_with false.
 Definition run_method : sx -> sx := run_parse_with true.
 
+(* the trusted part of encoding/json that the model re-implements, compared on
+   its own: json.Valid, and json.Unmarshal into a Go string *)
+Definition run_valid (a : sx) : sx :=
+  match a with SBytes doc => SB (json_valid doc) | _ => sx_err "valid" end.
+Definition run_unquote (a : sx) : sx :=
+  match a with SBytes doc => out_res SBytes (json_unmarshal_string doc) | _ => sx_err "unquote" end.
+
 (* private dispatcher (the shared one is Harness/Dispatch.v) *)
 Definition run (name : string) (a : sx) : sx :=
   if String.eqb name "c20.print" then run_print a
   else if String.eqb name "c20.parse" then run_parse a
   else if String.eqb name "c20.method" then run_method a
+  else if String.eqb name "c20.valid" then run_valid a
+  else if String.eqb name "c20.unquote" then run_unquote a
   else sx_err "unknown case kind".
